@@ -209,6 +209,36 @@ theorem C17_shims_agree_err
     cases hd : determineCommitmentType b.kit.channelType a.channelType with
     | mk ct m2 => rw [hd] at hfsB; dsimp only at hfsB; simp [hfsB]
 
+/-! ## Whole batches
+
+`PrepChannelFunding` and `BatchChannelSetup` loop over all of a trader's matched orders.  The two theorems say the
+loops add nothing and lose nothing: one registration (resp. one request) per matched pair, namely the per-pair one
+that `C17_shims_agree` / `C17_sidecar_agree` speak about – in particular a second match with an already connected
+node is registered like the first (only the connection attempt is de-duplicated). -/
+
+/-- **One shim + acceptor expectation per matched pair:** if every (our order, matched order) pair of the batch
+registers `f pair` on its own, `PrepChannelFunding` over the whole batch succeeds and registers exactly
+`f pair₁, f pair₂, …` – as many as there are pairs, none twice, none missing. -/
+theorem C17_prep_batch_regs (env : Env) (node : Bytes) (tx : BatchTx) (hint : Nat)
+    (batch : List (Order × List MatchedOrder)) (f : Order × MatchedOrder → Shim × Bytes × ExpBid)
+    (hall : ∀ p, p ∈ flatPairs batch → prepRegisters env node p.1 p.2 tx hint = .ok (some (f p))) :
+    ∃ out, prepBatch env node batch tx hint = .ok out ∧ out.regs = (flatPairs batch).map f := by
+  unfold prepBatch
+  rw [prepBatch_flat]
+  obtain ⟨out, hout⟩ := prepFlat_ok env node tx hint (flatPairs batch) f {} hall
+  refine ⟨out, hout, ?_⟩
+  have := prepFlat_regs env node tx hint (flatPairs batch) f {} out hall hout
+  simpa using this
+
+/-- **One open request per matched pair** of the asker's batch. -/
+theorem C17_setup_batch_reqs (env : Env) (tx : BatchTx) (hint : Nat)
+    (batch : List (Order × List MatchedOrder)) (f : Order × MatchedOrder → OpenReq)
+    (hall : ∀ p, p ∈ flatPairs batch → batchChannelSetup env p.1 p.2 tx hint = .ok (some (f p))) :
+    setupBatch env batch tx hint = .ok ((flatPairs batch).map f) := by
+  unfold setupBatch
+  rw [setupBatch_flat, setupFlat_reqs env tx hint (flatPairs batch) f [] hall]
+  simp
+
 /-! ## Sidecar bids
 
 Three parties: the provider holds the bid `b` with ticket `t` and submits it with the *recipient's* multisig and
@@ -336,6 +366,18 @@ theorem C17_gate_consistent (offer : Offer) (b : Bid) (amt : Int) (minUnits : Na
   | inl h0 => exact absurd h0 hl
   | inr h => exact h
 
+/-- **The two checks together:** an offer that `Manager.OfferSidecar` agrees to create (the only way to obtain an
+offer signed by the provider's account key, which the gate verifies) and a bid that passes the gate against it are
+consistent – no side condition left.  This discharges hypothesis `hcons` of `C17_sidecar_agree` for every sidecar
+bid that can reach the auctioneer. -/
+theorem C17_offer_gate_consistent (offer : Offer) (b : Bid) (amt : Int) (minUnits : Nat)
+    (ho : offerSidecarOK offer = true) (hg : offerGate offer b amt minUnits = true) :
+    OfferConsistent offer b := by
+  apply C17_gate_consistent offer b amt minUnits hg
+  unfold offerSidecarOK at ho
+  simp only [Bool.and_eq_true, bne_iff_ne, ne_eq] at ho
+  exact ho.1.1.1
+
 /-- the gate of the pinned tree admitted bids on which maker and recipient derive different channels: here the
 unannounced flag (which the CLI does not pre-fill from the ticket).  Replayed on the real code by
 `corpus/C17/sidecar-offer-mismatch.json`. -/
@@ -349,16 +391,17 @@ theorem C17_pinned_gate_admits_disagreement :
      intro h
      exact absurd h.2.2.1 (by decide)⟩
 
-/-- open finding (residual of the repaired gate): an offer without a lease duration still passes with any bid
-lease duration, and then the recipient's thaw height (from the offer) differs from the asker's (from the bid). -/
+/-- why the second `fix:` commit is needed: the gate alone lets an offer without a lease duration pass with any bid
+lease duration, and then the recipient's thaw height (from the offer) differs from the asker's (from the bid);
+`offerSidecarOK` refuses exactly these offers. -/
 theorem C17_gate_lease_unset_residual :
     ∃ (offer : Offer) (b : Bid) (amt : Int) (mu : Nat),
-      offerGate offer b amt mu = true ∧ ¬ OfferConsistent offer b ∧
+      offerGate offer b amt mu = true ∧ offerSidecarOK offer = false ∧ ¬ OfferConsistent offer b ∧
       thawSpec 0 0 offer.leaseDurationBlocks 800000 ≠ thawSpec 0 0 b.kit.leaseDuration 800000 :=
   ⟨{ capacity := 500000, pushAmt := 0, leaseDurationBlocks := 0, unannounced := false, zeroConf := false },
    { kit := { nonce := [1], leaseDuration := 2016, channelType := 0 }, selfChanBalance := 0, unannounced := false,
      zeroConf := false },
-   500000, 5, by decide, by
+   500000, 5, by decide, by decide, by
      intro h
      exact absurd h.1 (by decide), by decide⟩
 
@@ -512,7 +555,18 @@ example : ∃ req sT pidT eT,
     (by decide) (by decide)
 
 example : offerGate exTicket.offer exSBid 700000 7 = true := by decide
+example : offerSidecarOK exTicket.offer = true := by decide
 example : C17_gate_consistent exTicket.offer exSBid 700000 7 (by decide) (by decide) =
     (⟨rfl, rfl, rfl, rfl⟩ : OfferConsistent exTicket.offer exSBid) := rfl
+
+-- a bid matched with two asks of the *same* node: two registrations, one connection attempt
+def exAsk2 : Kit := { exAsk with nonce := [0xc], keyIndex := 13 }
+def exBatch : List (Order × List MatchedOrder) :=
+  [(.bid exFBid,
+    [{ order := .ask { exAsk with keyFamily := 0, keyIndex := 0 }, multiSigKey := [6, 11], nodeKey := [4], unitsFilled := 7 },
+     { order := .ask { exAsk2 with keyFamily := 0, keyIndex := 0 }, multiSigKey := [6, 13], nodeKey := [4], unitsFilled := 3 }])]
+example : (match prepBatch exEnv [5] exBatch exTx 800000 with
+    | .ok out => (out.conns, out.regs.map (fun r => r.2.1))
+    | _ => ([], [])) = ([[4]], [[0xa, 0xb], [0xc, 0xb]]) := by decide
 
 end Pool.C17
